@@ -571,6 +571,11 @@ class Interp:
             if glob.get(f[1][1]) is numpy:
                 if f[2] in ("matmul", "dot") and len(args) == 2 and not kw:
                     return [(st, ("binop", "MatMult", args[0], args[1]))]
+                if f[2] == "flatnonzero" and len(args) == 1 and not kw:
+                    # np.flatnonzero(c) == np.where(c)[0] for the one-dimensional conditions of this code base
+                    return [(s2, ("item", v, C(0))) for s2, v in self.apply(("attr", f[1], "where"), "np.where", args, kw, st, glob, owner, depth)]
+                if f[2] == "logical_not" and len(args) == 1 and not kw:
+                    return [(st, ("unop", "Invert", args[0]))]
                 if f[2] in _METHOD_EQUIV and args:
                     f, fsrc, args = ("attr", args[0], f[2]), f"{show(args[0])[:60]}.{f[2]}", args[1:]
         if isinstance(f, tuple) and f[0] == "attr" and f[2] in _AXIS_FIRST and not args and kw and kw[0][0] == "axis":
@@ -596,7 +601,7 @@ class Interp:
             return self.inline_fn(node, env, args, kw, st, g2, own2, depth, f[2])
         # the name of a call is read off what the callee DENOTES (self.optimiser_.update_params), not off how the source spells it
         # (opt = self.optimiser_; opt.update_params(...)): local aliases do not change the trace
-        name = _canon_name(f) or fsrc
+        name = _canon_name(f, st) or fsrc
         if isinstance(f, tuple) and f[0] == "global":
             name = f[1]
             obj = glob.get(name)
@@ -642,6 +647,7 @@ class Interp:
         if not want_inline or (o2, m) in self.frames:
             r = self.opaque_call(f"self.{m}", ("method", o2.__name__ if o2 else None, m), args, kw, st)
             return [r]
+        is_static = isinstance(f2, staticmethod)
         if isinstance(f2, (staticmethod, classmethod)):
             f2 = f2.__func__
         node, fobj = fn_ast(f2)
@@ -650,8 +656,9 @@ class Interp:
             return [self.opaque_call(f"self.{m}", ("method", o2.__name__, m), args, kw, st)]
         self.frames.append((o2, m))
         try:
-            env = {node.args.args[0].arg: selft}
-            res = self.inline_fn(node, env, args, kw, st, fobj.__globals__, o2, depth, f"{o2.__name__}.{m}", skip_first=True)
+            # a static method has no receiver parameter: its arguments bind from the first parameter on
+            env = {} if is_static else {node.args.args[0].arg: selft}
+            res = self.inline_fn(node, env, args, kw, st, fobj.__globals__, o2, depth, f"{o2.__name__}.{m}", skip_first=not is_static)
         finally:
             self.frames.pop()
         return res
@@ -698,7 +705,8 @@ class Interp:
 
 _AXIS_FIRST = frozenset(("argmax", "argmin", "sum", "mean", "max", "min", "prod", "any", "all", "std", "var", "cumsum", "squeeze"))
 _METHOD_EQUIV = _AXIS_FIRST | frozenset(("reshape", "copy", "flatten", "ravel", "transpose", "nonzero", "argsort", "astype", "tolist", "item"))
-_PURE_BUILTINS = frozenset(("dict", "list", "tuple", "set", "frozenset", "len", "int", "float", "bool", "str", "isinstance", "callable", "range"))
+_PURE_BUILTINS = frozenset(("dict", "list", "tuple", "set", "frozenset", "len", "int", "float", "bool", "str", "isinstance", "callable", "range",
+                            "min", "max", "abs", "sum", "sorted", "round"))
 _NEG = {"IsNot": "Is", "NotEq": "Eq", "NotIn": "In"}
 
 
@@ -709,13 +717,18 @@ def branches(t):
     return [t]
 
 
-def _canon_name(f):
+def _canon_name(f, st=None):
     if isinstance(f, tuple):
         if f[0] == "var":
             return f[1]
         if f[0] == "attr" and isinstance(f[2], str):
-            b = _canon_name(f[1])
+            b = _canon_name(f[1], st)
             return None if b is None else b + "." + f[2]
+        if st is not None:
+            # an object created locally and stored on self (tree = Tree(); self.tree_ = tree) is named by the attribute that holds it
+            for (base, attr), val in st.heap.items():
+                if val == f and base == ("var", "self"):
+                    return "self." + attr
     return None
 
 
